@@ -216,10 +216,33 @@ theorem okEq_field (O : Oracles) (opts : DeserOpts) : ∀ (f : FieldDecl) (d : P
           simp [deserThen, liftThen, deser, lift, dSeq, docSeq, listDoc, bindE, PyVal.isNone] at hz)
   | .struct c fields defaults, d, hex, hj => by
     simp only [exactDecl, and_true_iff] at hex
-    obtain ⟨⟨⟨hinl, hacc⟩, hnd⟩, hef⟩ := hex
-    have hinl' : c.inline = false := by simpa using hinl
-    have hacc' : c.name ∈ c.accepts := by simpa using hacc
+    obtain ⟨⟨hia, hnd⟩, hef⟩ := hex
     have hnd' : (fields.map (·.1)).Nodup := by simpa using hnd
+    by_cases hinlT : c.inline = true
+    · -- StructureReference
+      cases d with
+      | dict kvs =>
+        have hj' : strictJsonPairs kvs = true := by
+          have := hj; simp only [strictJson, Bool.and_eq_true] at this; exact this.2
+        rcases strict_kwOfDict kvs hj' with ⟨doc, hdoc, hall⟩
+        have hE : ∀ a ∈ deserExtras opts c (fields.map (·.1)) doc, a.1 ∉ fields.map (·.1) := by
+          intro a ha
+          have := (List.mem_filter.mp ha).2
+          simp only [Bool.and_eq_true, Bool.not_eq_true'] at this
+          intro hm
+          have hc : (fields.map (·.1)).contains a.1 = true := by simpa using hm
+          rw [hc] at this; exact absurd this.1.1 (by simp)
+        have H := fields_equiv O opts c defaults doc hall fields hef hnd'
+          (deserExtras opts c (fields.map (·.1)) doc) (deserExtras opts c (fields.map (·.1)) doc) hE hE
+        exact inline_okEq O opts c fields defaults kvs doc hdoc hinlT (struct_core O opts c fields defaults doc H)
+      | _ =>
+        first
+        | (simp [strictJson] at hj; done)
+        | (apply OkEq.errors <;> intro z hz <;>
+            simp [deserThen, liftThen, deser, lift, dInline, bindE, PyVal.isNone, hinlT] at hz)
+    have hinl' : c.inline = false := by simpa using hinlT
+    have hacc : c.accepts.contains c.name = true := by simpa [hinl'] using hia
+    have hacc' : c.name ∈ c.accepts := by simpa using hacc
     cases d with
     | dict kvs =>
       have hj' : strictJsonPairs kvs = true := by
@@ -331,7 +354,13 @@ theorem okEq_field (O : Oracles) (opts : DeserOpts) : ∀ (f : FieldDecl) (d : P
   | .oneOf _, _, hex, _ => by simp [exactDecl] at hex
   | .allOf _, _, hex, _ => by simp [exactDecl] at hex
   | .notF _, _, hex, _ => by simp [exactDecl] at hex
-  | .noneF, _, hex, _ => by simp [exactDecl] at hex
+  | .noneF, d, _, _ => by
+    by_cases hn : d.isNone = true
+    · apply OkEq.of_eq
+      simp [deserThen, liftThen, deser, lift, validate, hn, vNone]
+    · have hn' : d.isNone = false := by simpa using hn
+      apply OkEq.errors <;> intro z hz <;>
+        simp [deserThen, liftThen, deser, lift, validate, hn', vNone] at hz
   | .anything, _, hex, _ => by simp [exactDecl] at hex
 
 theorem zip_equiv (O : Oracles) (opts : DeserOpts) : ∀ (fs : List FieldDecl) (xs : List PyVal),
